@@ -22,22 +22,24 @@ MANIFEST = dict(
     category="proof",
     text="proof (partial). Machine-checked compiler-correctness proof (Coq) for a faithful model of "
          "bytecode_interpreter.rs (compile_expression / compile_define_variable / compile_statement: slot resolution "
-         "local/global/ans/function value, jump offsets of conditionals, call frames with parameters and where-locals, "
-         "recursion, function values and callable calls, foreign calls, struct literals sorted by definition index "
-         "and emitted in reverse, field access, lists, string parts and JoinString, procedures) and of the vm.rs stack "
-         "machine against an independent big-step reference semantics. C09_compile_correct: for EVERY program of the "
-         "modelled language and every fuel, if compilation stays within the u16 ranges and the reference evaluation "
-         "(static binding; no stale function value is called) yields print output and a final value, the machine "
-         "running the compiled code halts with exactly that output and value. C09_compile_correct_static: the same for the plain static semantics when no function name is defined twice. "
-         "Named clauses: C09_field_order, "
-         "C09_list_order, C09_string_order, C09_arg_order, C09_innermost_binding; C09_no_stuck_partial (no panic / "
-         "error on such runs). The unrestricted statement is refuted for function values taken before a redefinition "
-         "(C09_funref_refuted; open finding). C09_errors_partial: runtime errors of the reference are errors of the same kind on the machine (struct "
-         "literals excluded, format specifiers assumed total). NOT proved: absence of panics "
-         "for all well-typed programs, u16 wrap-around. The model is tied to the code on every run: the model "
-         "compiler's output is compared instruction by instruction with the real compiler's (hook dump), and model "
-         "machine / reference evaluator / implementation results are compared three ways on generated well-typed "
-         "programs (the reference evaluator is the oracle).",
+         "local/global/ans/function value with the chunk index captured at creation, jump offsets of conditionals and "
+         "the CodeTooLarge check, call frames with parameters and where-locals, recursion, function values and callable "
+         "calls, foreign calls, struct literals sorted by definition index and emitted in reverse, field access, lists, "
+         "string parts and JoinString, procedures) and of the vm.rs stack machine against an independent big-step "
+         "reference semantics. C09_compile_correct: for EVERY program of the modelled language and every fuel, if "
+         "compilation stays within the u16 ranges (compile_ok) and the reference evaluation yields print output and a "
+         "final value, the machine running the compiled code halts with exactly that output and value; "
+         "C09_reference_deterministic: that value does not depend on the fuel. Named clauses: C09_field_order, "
+         "C09_list_order, C09_string_order, C09_arg_order, C09_innermost_binding. C09_errors_partial: runtime errors of "
+         "the reference are errors of the same kind on the machine (struct literals excluded, format specifiers assumed "
+         "total); C09_no_stuck_partial / C09_no_stuck_on_error_partial: no panic on runs whose reference outcome is a "
+         "value or an error. NOT proved: absence of panics for ALL well-typed programs (needs the type system of C02 "
+         "and a treatment of diverging runs, see design/vm.md). The two former findings (function values re-bound by a "
+         "redefinition; silent truncation of 16 bit jump offsets) are repaired in numbat and kept as regression "
+         "examples. The model is tied to the code on every run: the model compiler's output is compared instruction "
+         "by instruction with the real compiler's (hook dump), and model machine / reference evaluator / "
+         "implementation results are compared on generated well-typed programs and multi-input sessions (with "
+         "failing inputs that must be rolled back); the reference evaluator is the oracle.",
     design_ref="DESIGN.md §6 C09, design/vm.md",
     note="Trusted: Coq kernel + vm_compute; the hand ports Compile.v/Machine.v (validated every run by the opcode-level "
          "and result-level correspondence, not proved against Rust); quantity arithmetic, formatting and foreign "
@@ -46,8 +48,9 @@ MANIFEST = dict(
     technique="Coq forward-simulation proof (fuel induction, frame-generic invariant) + three-way model/implementation correspondence by vm_compute",
 )
 
-THEOREMS = ["C09_compile_correct", "C09_compile_correct_static", "C09_no_stuck_partial", "C09_no_stuck_on_error_partial", "C09_errors_partial", "C09_expr_simulation", "C09_list_order", "C09_arg_order",
-            "C09_string_order", "C09_field_order", "C09_innermost_binding", "C09_funref_refuted"]
+THEOREMS = ["C09_compile_correct", "C09_reference_deterministic", "C09_no_stuck_partial", "C09_no_stuck_on_error_partial", "C09_errors_partial",
+            "C09_expr_simulation", "C09_list_order", "C09_arg_order", "C09_string_order", "C09_field_order",
+            "C09_innermost_binding"]
 ALLOWED_AXIOMS = []
 FRAGMENT_OPCODES = ["LoadConstant", "GetLocal", "GetUpvalue", "GetLastResult", "Negate", "LogicalNeg", "Factorial",
                     "Add", "Subtract", "Multiply", "Divide", "Power", "LessThan", "GreaterThan", "LessOrEqual",
@@ -788,6 +791,32 @@ def funref_pattern(rng):
     return src, coq
 
 
+def make_session(rng, src, coq):
+    """split a program into several inputs (one `interpret` call each, same Context) and,
+    half of the time, insert an input that fails at run time and must be rolled back"""
+    pairs = list(zip(src[1:], coq))
+    k = min(len(pairs), rng.randrange(2, 5))
+    if k < 2:
+        return None
+    cuts = sorted(rng.sample(range(1, len(pairs)), k - 1))
+    groups = [pairs[a:b] for a, b in zip([0] + cuts, cuts + [len(pairs)])]
+    z = "EScalar 0%Z"
+    if rng.random() < 0.5:
+        bad = rng.choice([
+            [("(1 / 0)", "SExpr (EBin BDiv (EScalar 1%%Z) (%s))" % z)],
+            [("let bad = (1 / 0)", 'SLet "bad" (EBin BDiv (EScalar 1%%Z) (%s))' % z)],
+            [("assert((1 > 2))", 'SProc "assert" [EBin BGt (EScalar 1%Z) (EScalar 2%Z)]')],
+            [("fn bad2(x: Scalar) -> Scalar = (x / 0)", 'SFn "bad2" ["x"] [] (EBin BDiv (EIdent "x") (%s))' % z),
+             ("let bad3 = 5", 'SLet "bad3" (EScalar 5%Z)'),
+             ("bad2(bad3)", 'SExpr (ECall "bad2" [EIdent "bad3"])')],
+        ])
+        groups.insert(rng.randrange(1, len(groups) + 1), bad)
+    s_in = [[a for a, _ in g] for g in groups]
+    c_in = [[b for _, b in g] for g in groups]
+    s_in[0] = [src[0]] + s_in[0]
+    return s_in, c_in
+
+
 def error_cases(rng):
     """programs that end in a runtime error: the error kind must agree three ways"""
     k = rng.randrange(1, 9)
@@ -827,8 +856,9 @@ def oversize_cases():
     for n in (21000, 22000):
         lst = "[" + ",".join(["1"] * n) + "]"
         pre = ["dimension Scalar = 1", Gen.FOREIGN["len"][0]]
-        out.append((pre + ["if true then len(%s) else 7" % lst], "V:%d" % n, n))
-        out.append((pre + ["if false then len(%s) else 7" % lst], "V:7", n))
+        big = 3 * n + 3 + 10 > 65532      # end of the conditional beyond the 16 bit limit
+        out.append((pre + ["if true then len(%s) else 7" % lst], "E:CodeTooLarge" if big else "V:%d" % n, n))
+        out.append((pre + ["if false then len(%s) else 7" % lst], "E:CodeTooLarge" if big else "V:7", n))
     return out
 
 
@@ -836,7 +866,16 @@ FUEL_MACH_HANG = 1500      # the implementation did not terminate: only "out of 
 
 
 def coq_case(coq_stmts, mfuel=None):
+    if coq_stmts and isinstance(coq_stmts[0], list):      # a session: list of inputs
+        return "show_session %d (N.to_nat %d) %s" % (FUEL_REF, mfuel or FUEL_MACH, clist(clist(i) for i in coq_stmts))
     return "show_case %d (N.to_nat %d) %s" % (FUEL_REF, mfuel or FUEL_MACH, clist(coq_stmts))
+
+
+def case_line(src):
+    """harness input line: a program (list of statements) or a session (list of such lists)"""
+    if src and isinstance(src[0], list):
+        return " ;;; ".join(" ;; ".join(i) for i in src)
+    return " ;; ".join(src)
 
 
 def safe_mismatches(imports, items, tag, base=0, timeout=420):
@@ -852,20 +891,19 @@ def safe_mismatches(imports, items, tag, base=0, timeout=420):
                     os.remove(os.path.join(common.WORK, f))
                 except OSError:
                     pass
+        timed_out = "timed out" in str(e) or isinstance(e, subprocess.TimeoutExpired)
         if len(items) == 1:
-            return {0: "@@MODEL-TIMEOUT"}
-        if "timed out" not in str(e) and not isinstance(e, subprocess.TimeoutExpired):
-            raise
+            return {0: "@@MODEL-TIMEOUT" if timed_out else "@@MODEL-ERROR " + str(e)[-300:].replace("\n", " ")}
         h = len(items) // 2
-        a = safe_mismatches(imports, items[:h], tag + "a", timeout=max(60, timeout // 2))
-        b = safe_mismatches(imports, items[h:], tag + "b", timeout=max(60, timeout // 2))
+        a = safe_mismatches(imports, items[:h], tag + "a", timeout=timeout)
+        b = safe_mismatches(imports, items[h:], tag + "b", timeout=timeout)
         out = dict(a)
         out.update({k + h: v for k, v in b.items()})
         return out
 
 
 # -------------------------------------------------------------- harness I/O
-def run_vm_harness(binary, lines, chunk_timeout=30):
+def run_vm_harness(binary, lines, chunk_timeout=60):
     """like common.run_harness, but a hanging case (non-terminating program) is
     isolated and reported as @@TIMEOUT instead of raising."""
     if not lines:
@@ -892,7 +930,7 @@ def run_vm_harness(binary, lines, chunk_timeout=30):
             return out
         res = []
         for c in chunk:
-            o = run([c], 4)
+            o = run([c], 5) or run([c], 30)     # a slow case under load is not a hang: retry once, generously
             res.append(o[0] if o else "R:@@TIMEOUT-OR-CRASH ## O: ## D:")
         return res
 
@@ -915,68 +953,68 @@ def split_impl(line):
 def impl_obs(line):
     """the observation string in the model's format"""
     r, o, d = split_impl(line)
-    if r.startswith("E:") or r.startswith("T:") or r == "P" or r.startswith("@@"):
-        return "R:" + r, d
     return "R:%s ## O:%s" % (r, o), d
 
 
 BIG = re.compile(r"\d{15,}")
 
 
+def parse_obs(x):
+    m = re.match(r"^R:(.*?) ## O:(.*)$", x, re.S)
+    if not m:
+        return [x], ""
+    return m.group(1).split(" ;; "), m.group(2)
+
+
 def classify(impl_line, model_str):
-    """-> (kind, detail).  kinds: ok, overflow, model-compile, model-machine, known-funref, impl-vs-ref"""
+    """-> (kind, detail).  kinds: ok, overflow, generator, fuel, model-timeout, model-compile, model-machine, impl-vs-ref"""
     io, idump = impl_obs(impl_line)
     if model_str == "@@MODEL-TIMEOUT":
         return "model-timeout", "the model evaluation of this case did not finish"
+    if model_str.startswith("@@MODEL-ERROR"):
+        return "model-machine", "the model could not be evaluated on this case: " + model_str[13:]
     parts = model_str.split(" || ")
-    if len(parts) != 4:
+    if len(parts) != 3:
         return "model-machine", "unparsable model output"
-    m, s, k, d = parts
+    m, s, d = parts
     if BIG.search(model_str) or BIG.search(impl_line) or "e+" in impl_line.split(" ## D:")[0]:
         return "overflow", ""
-    if io.startswith("R:T:"):
-        # rejected by the type checker: the generator is wrong, not numbat
-        return "generator", io
-    def same(a, b):
-        if a.startswith("R:E:") and b.startswith("R:E:"):
-            return True
-        return a == b
-    if io.startswith("R:E:"):
-        ok_m = (m == io)
-        ok_s = s.startswith("R:E:")
-        ok_d = True                       # the interpreter state (and the dump) is rolled back on errors
-    else:
-        ok_m = (m == io)
-        ok_s = (s == io)
-        ok_d = (d == idump)
+    iR, iO = parse_obs(io)
+    mR, mO = parse_obs(m)
+    sR, sO = parse_obs(s)
+    if any(x.startswith("T:") for x in iR):
+        return "generator", io          # rejected by the type checker: the generator is wrong, not numbat
+    crashed = iR == ["P"] or any(x.startswith("@@") for x in iR)
+    if "E:CodeTooLarge" in iR or "E:CodeTooLarge" in mR:
+        # explicit resource limit of the compiler (16 bit jump offsets): model and implementation must agree
+        return ("ok", "") if mR == iR else ("model-compile", "CodeTooLarge: implementation %s, model %s" % (iR, mR))
+    if "F" in mR and not crashed:
+        return "fuel", "model machine out of fuel"
+    any_err = any(x.startswith("E:") for x in iR)
+    ok_m = (mR == iR) and (any_err or mO == iO)
+    ok_s = (len(sR) == len(iR) and all(a == b or (a.startswith("E:") and b.startswith("E:")) for a, b in zip(sR, iR))
+            and (any_err or sO == iO))
+    ok_d = (d == idump)
     if ok_m and ok_s and ok_d:
         return "ok", ""
-    hang = io.startswith("R:@@")
-    if k == "R:S" and not ok_s and (ok_m or (hang and m == "R:F")):
-        # a stale function value is called; the faithful machine predicts the implementation's
-        # behaviour (same result, or non-termination: machine out of fuel, implementation hangs)
-        return "known-funref", "implementation %s, source semantics %s" % (io, s)
-    if m == "R:F" and not hang:
-        return "fuel", "model machine out of fuel"
-    if not ok_s and io != "R:P" and not hang:
-        if not s.startswith("R:F"):
-            return "impl-vs-ref", "implementation %s, source semantics %s" % (io, s)
-    if io == "R:P" or io.startswith("R:@@"):
-        return "impl-vs-ref", "implementation %s (panic/hang), source semantics %s" % (io, s)
+    if crashed:
+        return "impl-vs-ref", "implementation %s (panic/hang), source semantics %s" % (io[:200], s[:200])
+    if not ok_s and "F" not in sR:
+        return "impl-vs-ref", "implementation %s, source semantics %s" % (io[:300], s[:300])
     if not ok_d:
         return "model-compile", "bytecode differs"
-    return "model-machine", "implementation %s, model machine %s" % (io, m)
+    return "model-machine", "implementation %s, model machine %s" % (io[:300], m[:300])
 
 
 def evaluate(binary, cases, tag):
     """cases: list of (src_lines, coq_stmts). returns list of (impl_line, model_str or None, kind, detail)"""
-    lines = [" ;; ".join(s) for s, _ in cases]
+    lines = [case_line(s) for s, _ in cases]
     impl = run_vm_harness(binary, lines)
     items = []
     for n, (s, c) in enumerate(cases):
         io, idump = impl_obs(impl[n])
-        hang = io.startswith("R:@@")
-        items.append((coq_case(c, FUEL_MACH_HANG if hang else None), "%s || %s || %s || %s" % (io, io, io, idump)))
+        hang = "@@" in io.split(" ## O:")[0]
+        items.append((coq_case(c, FUEL_MACH_HANG if hang else None), "%s || %s || %s" % (io, io, idump)))
     bad = safe_mismatches(["VM.Value", "VM.Ast", "VM.Bytecode", "VM.Compile", "VM.Machine", "VM.RefSem", "VM.Exec"],
                           items, tag)
     out = []
@@ -1049,7 +1087,7 @@ def run(chk):
     for c in load_corpus():
         cases.append((c["src"], c["coq"]))
         kinds.append("corpus")
-    nrand = 1000 if quick else 10000
+    nrand = 850 if quick else 10000
     feats = collections.Counter()
     gen_fail = 0
     for n in range(nrand):
@@ -1064,6 +1102,14 @@ def run(chk):
             gen_fail += 1
             continue
         feats.update(g.features)
+        if n % 4 == 2:
+            sess = make_session(chk.rng, s, c)
+            if sess:
+                cases.append(sess)
+                kinds.append("session")
+                feats["session"] += 1
+                feats["session_with_failing_input"] += int(len(sess[1]) and any("bad" in str(i) or "(1 / 0)" in str(i) or "(1 > 2)" in str(i) for i in sess[0][1:]))
+                continue
         cases.append((s, c))
         kinds.append("generated")
 
@@ -1112,14 +1158,16 @@ def run(chk):
                 continue
             kind = "impl-vs-ref"
         if kind == "impl-vs-ref" and found < 2:
-            ss, cc = shrink(binary, s, c, "impl-vs-ref") if len(c) > 1 else (s, c)
+            is_session = bool(c) and isinstance(c[0], list)
+            ss, cc = shrink(binary, s, c, "impl-vs-ref") if (len(c) > 1 and not is_session) else (s, c)
             rr = evaluate(binary, [(ss, cc)], "c09rep")[0]
             chk.violation({
                 "kind": "the implementation's result differs from the source semantics (reference evaluator)",
-                "program": ss[1:], "preamble": ss[0], "coq": cc,
+                "program": ss if is_session else ss[1:], "preamble": None if is_session else ss[0], "coq": cc,
+                "session": is_session,
                 "implementation": split_impl(rr[0])[0], "implementation_output": split_impl(rr[0])[1],
                 "model": rr[1], "detail": rr[3] or detail, "original_case_kind": kinds[n],
-                "replay": "echo '%s' | harness/target/debug/nbverif vm" % " ;; ".join(ss).replace("'", "'\\''"),
+                "replay": "echo '%s' | harness/target/debug/nbverif vm" % case_line(ss).replace("'", "'\\''"),
             })
             found += 1
         elif kind in ("model-compile", "model-machine"):
@@ -1158,9 +1206,12 @@ def run(chk):
         n = model_broken[0] if model_broken else None
         first = None
         if n is not None:
-            ss, cc = shrink(binary, cases[n][0], cases[n][1], results[n][2])
+            if cases[n][1] and isinstance(cases[n][1][0], list):
+                ss, cc = cases[n]
+            else:
+                ss, cc = shrink(binary, cases[n][0], cases[n][1], results[n][2])
             rr = evaluate(binary, [(ss, cc)], "c09rep")[0]
-            first = {"program": ss[1:], "coq": cc, "implementation": rr[0], "model": rr[1], "kind": rr[2], "detail": rr[3]}
+            first = {"program": ss, "coq": cc, "implementation": rr[0], "model": rr[1], "kind": rr[2], "detail": rr[3]}
         chk.violation({
             "kind": "proof or correspondence no longer checks",
             "theorem_or_correspondence": ("correspondence VM/Compile.v+VM/Machine.v vs bytecode_interpreter.rs+vm.rs (%d cases: %s)"
@@ -1207,7 +1258,7 @@ def replay(path):
         print(json.dumps(r, indent=1))
         return 0
     binary, _ = common.build_harness()
-    src = [r.get("preamble", "dimension Scalar = 1")] + r["program"]
+    src = r["program"] if r.get("session") else [r.get("preamble", "dimension Scalar = 1")] + r["program"]
     res = evaluate(binary, [(src, r["coq"])], "c09replay")[0]
     print("implementation:", res[0][:500])
     print("model         :", res[1])
